@@ -813,7 +813,7 @@ def gen_conv(rng, quick):
 
 def gen_png(rng, quick):
     """Pl_PNGFilter's constructor: parameter sets on both sides of every check it makes (none of the accepted ones allocates
-    more than a few MB: the set with bpr = 2^32 - 1 allocates NOTHING, which is the finding D-C04-png-row-wrap)"""
+    more than a few MB; the sets with bpr = 2^32 - 1, the former witnesses of D-C04-png-row-wrap, must be refused)"""
     cases = []
     for dec in "de":
         for limit, cols, spp, bps in [(0, 1431655765, 3, 8), (0, 1431655766, 3, 8), (0, 4294967295, 1, 8), (0, 4294967295, 1, 16), (0, 4294967295, 2, 4),
@@ -833,7 +833,7 @@ def gen_png(rng, quick):
                 continue                                       # would really allocate that much
             cases.append((dec, limit, cols, spp, bps))
     lines = ["c4png %s %d %d %d %d" % c for c in cases]
-    models = ["c4png 0 %d %s %s %s %s" % (1 if c[0] == "d" else 0, zbits(c[1]), zbits(c[2]), zbits(c[3]), zbits(c[4])) for c in cases]
+    models = ["c4png %d %s %s %s %s" % (1 if c[0] == "d" else 0, zbits(c[1]), zbits(c[2]), zbits(c[3]), zbits(c[4])) for c in cases]
     return cases, lines, models
 
 
@@ -1189,27 +1189,19 @@ def run_part(chk, quick):
                 diffs.append(({"kind": "conv", "tag": "conv"}, None, o, exp, l))
     chk.count("guards-conversions", len(cl), set(cl))
     chk.cov["parts"]["guards-conversions"]["out_of_range_cases"] = nrange
-    # ---- Pl_PNGFilter's constructor: accepted / refused = model; an accepted parameter set whose row buffers are smaller than a
-    #      row (the uint32_t addition bytes_per_row + 1 wraps) is the property failing (D-C04-png-row-wrap)
+    # ---- Pl_PNGFilter's constructor: accepted / refused = model (png_ctor_row_buffer_nonempty says what acceptance implies)
     pcases, plines, pmodels = gen_png(rng, quick)
     pouts = run_driver_lines(drv, plines, fails, "c4png")
     pmo = common.run_lines(model, pmodels)
-    wrapped = 0
+    pcat = {}
     for c, l, o, mo in zip(pcases, plines, pouts, pmo):
         if o.startswith(("?", "!")):
             continue
+        pcat[mo.split()[0]] = pcat.get(mo.split()[0], 0) + 1
         if o.split(":")[0] != mo.split()[0]:
             diffs.append(({"kind": "png", "tag": "ctor"}, None, o, mo, l))
-        elif mo.startswith("ok"):
-            kv = dict(x.split("=") for x in mo.split()[1:])
-            if unzbits(kv["alloc"]) != unzbits(kv["bpr"]) + 1:
-                wrapped += 1
-                if wrapped == 1:
-                  fails.append(({"kind": "png", "tag": "row-wrap"}, None, "internal: Pl_PNGFilter(%s, columns=%d, samples_per_pixel=%d, bits_per_sample=%d) with png_max_memory=%d "
-                              "is accepted with bytes_per_row = %d, but its row buffers are allocated with (uint32_t)(bytes_per_row + 1) = %d elements: "
-                              "the first row written reads and writes outside them" % (c[0], c[2], c[3], c[4], c[1], unzbits(kv["bpr"]), unzbits(kv["alloc"])), None))
     chk.count("guards-png-constructor", len(plines), set(plines))
-    chk.cov["parts"]["guards-png-constructor"]["accepted_with_wrapped_row_buffer"] = wrapped
+    chk.cov["parts"]["guards-png-constructor"]["outcome_categories"] = pcat
     # ---- one-shot reconstruction: the counter machine against the bound, for random event sequences
     rl = []
     for _ in range(200):
